@@ -415,7 +415,7 @@ func (r *Ref) lookup(name string) (Val, bool) {
 
 func (r *Ref) assign(name string, v Val, define bool) Val {
 	if IsConstant(name) {
-		if old, ok := r.lookup(name); ok && !Equals(old, v) {
+		if old, ok := r.lookup(name); ok && !sameConstant(old, v) {
 			return errf("attempt to change constant %s", name)
 		}
 	}
@@ -431,6 +431,46 @@ func (r *Ref) assign(name string, v Val, define bool) Val {
 	}
 	r.env.vars[name] = v
 	return v
+}
+
+// sameConstant: a constant may only be bound again to the same value: equal, of the same type down to the elements
+// (1 is not 1.0), with the same sign for a zero, and for functions the same text over the same captured scope.
+func sameConstant(a, b Val) bool {
+	if !Equals(a, b) {
+		return false
+	}
+	return strictSame(a, b)
+}
+
+func strictSame(a, b Val) bool {
+	switch x := a.(type) {
+	case *Fn:
+		y, ok := b.(*Fn)
+		return ok && x.Key == y.Key && x.Env == y.Env
+	case *Arr:
+		y, ok := b.(*Arr)
+		if !ok || len(x.E) != len(y.E) {
+			return false
+		}
+		for i := range x.E {
+			if !strictSame(x.E[i], y.E[i]) {
+				return false
+			}
+		}
+		return true
+	case *Map:
+		y, ok := b.(*Map)
+		if !ok || len(x.P) != len(y.P) {
+			return false
+		}
+		for i := range x.P {
+			if !strictSame(x.P[i].K, y.P[i].K) || !strictSame(x.P[i].V, y.P[i].V) {
+				return false
+			}
+		}
+		return true
+	}
+	return Same(a, b)
 }
 
 // ---- evaluation ----
